@@ -1,7 +1,7 @@
 (* Extract.v — extraction of the executable models and judges to OCaml.
    Only ExtrOcamlBasic is used: bool, option, list, prod, unit, sumbool map to OCaml's own types;
    nat, positive and Z stay the extracted inductive types (no Extract Constant, no ExtrOcamlZInt). *)
-From Cmr Require Import Base Det CtuModel PivotModel TuModel SpModel GraphModel CamionModel KsumModel TreeModel TextModel RelModel StackModel TimeoutModel EquiModel MatModel EdgeModel CliModel LeafModel RtModel TuNetModel RegCertModel EquiCertModel BalancedCertModel.
+From Cmr Require Import Base Det CtuModel PivotModel TuModel SpModel GraphModel CamionModel KsumModel TreeModel TextModel RelModel StackModel TimeoutModel EquiModel MatModel EdgeModel CliModel LeafModel RtModel TuNetModel RegCertModel EquiCertModel BalancedCertModel CamionCertModel.
 Require Import ExtrOcamlBasic.
 Extraction Language OCaml.
 (* The only directives of our own: boolean conjunction/disjunction become OCaml's lazy operators.  For total,
@@ -11,4 +11,4 @@ Extract Inlined Constant andb => "(&&)".
 Extract Inlined Constant orb => "(||)".
 Extraction "cmr_model.ml"
   Z.add Z.mul Z.opp
-  judge_ctu_compl judge_ctu_test judge_pivot judge_tu judge_tu_cert judge_regular judge_sp judge_balanced judge_graphic judge_network judge_repmat judge_camion judge_kcompose judge_kdecomp judge_tree judge_textread judge_textwrite judge_rel judge_stack judge_tlimit judge_hist judge_threads judge_equimod judge_matutil judge_edgelist judge_climat judge_climatd judge_cligraphout judge_clisub judge_clictu judge_cligraph judge_cliverdict judge_leaf judge_reprt judge_tu_net judge_regular_cert judge_equi_cert judge_balanced_cert.
+  judge_ctu_compl judge_ctu_test judge_pivot judge_tu judge_tu_cert judge_regular judge_sp judge_balanced judge_graphic judge_network judge_repmat judge_camion judge_kcompose judge_kdecomp judge_tree judge_textread judge_textwrite judge_rel judge_stack judge_tlimit judge_hist judge_threads judge_equimod judge_matutil judge_edgelist judge_climat judge_climatd judge_cligraphout judge_clisub judge_clictu judge_cligraph judge_cliverdict judge_leaf judge_reprt judge_tu_net judge_regular_cert judge_equi_cert judge_balanced_cert judge_camion_cert.
